@@ -38,7 +38,10 @@ static std::string c07_string(const Case &c) {
   for (size_t v = 0; v < 3 + n; v++) {
     Bytes m = msg_content(v < 3 ? (int)v : 3, n, v - 3);
     Bytes out(ref::hlen_of(algo) + 8, 0xAA);
-    h->getStringHash(m.data(), (u32_t)n, out.data());
+    std::vector<unsigned char> place(n + 32);
+    unsigned char *mp = place.data() + ((16 - ((uintptr_t)place.data() & 15)) & 15) + ((v + n) & 7); // the message lies at every offset 0..7 from an aligned address in turn
+    memcpy(mp, m.data(), n);
+    h->getStringHash(mp, (u32_t)n, out.data());
     evals++;
     Bytes exp = ref::digest(algo, m);
     if (memcmp(out.data(), exp.data(), exp.size()) != 0 && bad.empty())
@@ -50,7 +53,7 @@ static std::string c07_string(const Case &c) {
 static std::string c07_file(const Case &c) {
   int algo = (int)c.num("algo"), pre = (int)c.num("pre"), off = (int)c.num("off");
   size_t n = (size_t)c.num("len");
-  Bytes file = msg_content(2, n + off, 0);
+  Bytes file = msg_content((int)c.num("ct", 2), n + off, 0);
   Bytes prefix(64);
   for (int i = 0; i < 64; i++) prefix[i] = (unsigned char)(0x36 ^ (i * 3));
   int fd = memfd_with(file);
@@ -71,7 +74,7 @@ static std::string c07_file(const Case &c) {
   Bytes exp = ref::digest(algo, m);
   if (memcmp(out.data(), exp.data(), exp.size()) != 0) {
     size_t tot = m.size();
-    return std::string("digest-differs:file:") + AN[algo] + ":len%64=" + (tot % 64 >= 56 ? "56..63" : "0..55") + (n > R ? ":refilled" : "") + "|" + AN[algo] + " streamed through the file buffer (" + std::to_string(n) + " bytes from offset " + std::to_string(off) + (pre ? ", with prefix block" : "") + ") is " + hex(out.data(), exp.size()) + ", standard says " + hex(exp);
+    return std::string("digest-differs:file:") + AN[algo] + ":len%64=" + (tot % 64 >= 56 ? "56..63" : "0..55") + (n > R ? ":refilled" : "") + "|" + AN[algo] + " streamed through the file buffer (" + std::to_string(n) + " bytes from offset " + std::to_string(off) + (pre ? ", with prefix block" : "") + (c.num("ct", 2) == 1 ? ", all bytes 0xFF" : c.num("ct", 2) == 0 ? ", all bytes 0x00" : "") + ") is " + hex(out.data(), exp.size()) + ", standard says " + hex(exp);
   }
   return "";
 }
@@ -128,8 +131,10 @@ static std::string c08_hmac(const Case &c) {
   size_t n = (size_t)c.num("len");
   long evals = 0;
   std::string bad;
-  for (int pos : c08_positions()) {
-    Bytes file = msg_content(2, n + pos, 0);
+  for (int pc = 0; pc < 2 * (int)c08_positions().size(); pc++) {
+    int pos = c08_positions()[pc / 2];
+    if ((pc & 1) && n == 0) continue;
+    Bytes file = msg_content((pc & 1) ? 1 : 2, n + pos, 0); // counter pattern, and all bytes 0xFF
     int fd = memfd_with(file);
     FILE *fp = fopen_fd(fd, "rb");
     fseek(fp, pos, SEEK_SET);
@@ -279,9 +284,12 @@ static std::string c09_dev(const Case &c) {
   long evals = 0;
   std::string bad;
   int step = (int)c.num("bstep", 1);
-  alignas(16) unsigned char w[16], x[16], r[32], q[32];
+  // placement: the block handed to runaes_128bit lies at every offset 0..15 from a 16-byte boundary in turn (the interface takes a
+  // plain u8_t*; packed records and odd offsets are blocks too)
+  alignas(16) unsigned char wbuf[48], xbuf[48], r[32], q[32];
   for (int bp = 0; bp < 16 && bad.empty(); bp++)
     for (int bv = 0; bv < 256; bv += step) {
+      unsigned char *w = wbuf + 16 + ((bp + bv / step) & 15), *x = xbuf + 16 + ((bp * 5 + bv / step + 3) & 15);
       Bytes b = blk0;
       b[bp] = (unsigned char)bv;
       memcpy(w, b.data(), 16);
@@ -289,7 +297,7 @@ static std::string c09_dev(const Case &c) {
       int ol = 0;
       EVP_EncryptUpdate(ce, r, &ol, b.data(), 16);
       evals++;
-      if (memcmp(w, r, 16) != 0) { bad = "encrypt-differs|AES-128(" + hex(key) + ", " + hex(b) + ") gives " + hex(w, 16) + ", FIPS-197 says " + hex(r, 16); break; }
+      if (memcmp(w, r, 16) != 0) { bad = "encrypt-differs|AES-128(" + hex(key) + ", " + hex(b) + ") gives " + hex(w, 16) + ", FIPS-197 says " + hex(r, 16) + " (block at offset " + std::to_string((int)((uintptr_t)w & 15)) + " from a 16-byte boundary)"; break; }
       memcpy(x, w, 16);
       d.runaes_128bit(x);
       if (memcmp(x, b.data(), 16) != 0) { bad = "decrypt-not-inverse|decrypt(encrypt(x)) != x for key " + hex(key) + " block " + hex(b); break; }
@@ -339,8 +347,9 @@ static std::string c10_check(int cm, const unsigned char *key, const Bytes &iv, 
   Aesmode *e = f.createCryMaster(true, (u8_t)cm);
   if (!e) return std::string("factory-null:") + MN[cm] + "|no encryptor for mode " + std::to_string(cm);
   Bytes out = in;
-  std::vector<unsigned char> al(16 + in.size() + 16);
-  unsigned char *p = al.data() + ((16 - ((uintptr_t)al.data() & 15)) & 15); // 16-byte aligned working copy (the code XORs words)
+  static unsigned placement = 0;
+  std::vector<unsigned char> al(16 + in.size() + 32);
+  unsigned char *p = al.data() + ((16 - ((uintptr_t)al.data() & 15)) & 15) + (placement++ & 15); // working copy at every offset 0..15 from a 16-byte boundary in turn (the interface takes a plain u8_t*)
   memcpy(p, in.data(), in.size());
   for (size_t o = 0; o < in.size(); o += 16) e->runcry(p + o);
   memcpy(out.data(), p, in.size());
@@ -620,7 +629,10 @@ static void build(const Args &a, std::vector<Case> &out) {
           for (int pre = 0; pre < 2; pre++)
             for (int off = 0; off < 4; off++) {
               if (!THOROUGH && off && (n % 4)) continue;
-              add(Case().set("g", "file").set("algo", algo).set("len", (long)n).set("pre", pre).set("off", off), std::string("file:") + AN[algo] + ":R=" + std::to_string(R) + ":len%64=" + std::to_string(n % 64) + ":refills=" + std::to_string(n / R) + ":pre=" + std::to_string(pre));
+              for (int ct : {2, 1, 0}) { // counter pattern; all 0xFF (reads as EOF through a signed char); all 0x00 (reads as a C-string terminator)
+                if (ct != 2 && off) continue;
+                add(Case().set("g", "file").set("algo", algo).set("len", (long)n).set("pre", pre).set("off", off).set("ct", ct), std::string("file:") + AN[algo] + ":R=" + std::to_string(R) + ":len%64=" + std::to_string(n % 64) + ":refills=" + std::to_string(n / R) + ":pre=" + std::to_string(pre) + (ct == 2 ? "" : ct == 1 ? ":FF" : ":00"));
+              }
             }
   } else if (MODE == "c08") {
     for (int hm = 0; hm < 3; hm++)
